@@ -130,6 +130,7 @@ class Candle:
     def from_list(cls, candle: list) -> Candle:
         """Expected list [open, high, low, close, volume]
         with optional datetime at the beginning or end."""
+        candle = list(candle)  # the timestamp is popped below: leave the caller's list alone
         timestamp = None
         if isinstance(candle[0], datetime):
             timestamp = candle.pop(0)
